@@ -35,12 +35,29 @@ SENTINEL = -9999.0
 # one-member bin constrained to sqrt(1/w) and 0); the registered commands never set it
 STRICT = os.environ.get("VH_C14_STRICT") == "1"
 
-# lattice concretisations: value = (x + off) * unit, weight = w * wunit  (unit, wunit dyadic);
-# the second variable uses the entry three places further on
-CONC = [
+# lattice concretisations: value = (x + off) * unit, second variable (y + yoff) * yunit, weight = w * wunit
+# (units dyadic); entries: (unit, off, wunit, dtype, yunit, yoff, ydtype)
+_BASE = [
     (1.0, 0, 1.0, "f8"), (0.5, -3, 0.25, "f8"), (4.0, 2, 8.0, "f8"), (2.0 ** -10, 0, 2.0 ** -3, "f8"),
     (1, 0, 1, "i8"), (8.0, -6, 1.0, "f8"), (1.0, 5, 2.0 ** 10, "f8"), (1, -2, 1, "i8"), (0.25, 1, 2.0, "f4"),
 ]
+NBASE = len(_BASE)
+CONC = [e + (_BASE[(k + 3) % NBASE][0], _BASE[(k + 3) % NBASE][1], _BASE[(k + 3) % NBASE][3]) for k, e in enumerate(_BASE)]
+# large-offset lattices: the data sit at |value| up to 2^40 lattice units with order-one scatter (timestamps,
+# coordinates); every value, limit and bin size is still exactly representable, differences of data are exact, so the
+# binning is the one of the un-offset integers and the exact expectations of BinStats.tla are unchanged: value-type
+# quantities are shifted back by the projection, deviation-type quantities are shift invariant.
+CONC += [
+    (1.0, 2 ** 40, 1.0, "f8", 1.0, 0, "f8"),                        # x large
+    (0.5, -3, 0.25, "f8", 1.0, 2 ** 40 - 7, "f8"),                   # y large
+    (1.0, 10 ** 8, 2.0, "f8", 1.0, 10 ** 8 + 1, "f8"),               # both ~1e8
+    (2.0 ** -6, 2 ** 33 + 5, 1.0, "f8", 0.5, 2 ** 36, "f8"),         # both, other units
+    (1, 2 ** 40, 1, "i8", 1, -(2 ** 38), "i8"),                      # integer input, negative large y
+    (4.0, -(2 ** 37), 8.0, "f8", 1.0, 5, "f8"),                      # negative large x
+]
+BIG = 2 ** 20          # |offset| from which the large-offset projection is used
+IVL_K = 256            # BinStats.tla: BIvlK
+INT31 = 2 ** 31 - 1
 
 BOUNDS = {
     "quick": dict(MaxLen=3, Vals=set(range(1, 6)), BinSizes={1, 2, 3}, NBinSet={1, 2, 3}, NPerSet={1, 2, 3, 4},
@@ -65,8 +82,7 @@ def _su():
 
 # ---- abstract <-> concrete -------------------------------------------------------------------
 def concretise(c, k):
-    unit, off, wunit, dt = CONC[k]
-    yunit, yoff, _, ydt = CONC[(k + 3) % len(CONC)]
+    unit, off, wunit, dt, yunit, yoff, ydt = CONC[k]
     x = np.array([(v + off) * unit for v in c["x"]], dtype=dt)
     y = np.array([(v + yoff) * yunit for v in c["y"]], dtype=ydt)
     w = np.array([v * wunit for v in c["w"]], dtype=dt) if c["w"] else None
@@ -143,15 +159,80 @@ def raw_call(c, k, p, engine):
     return res, all(a.tobytes() == bb for a, bb in zip(args, before))
 
 
+def caps(c):
+    """bounds (lattice units, offset removed) on every expectation of the case: value-type and deviation^2-type"""
+    lims = ([c["min"]] if c["hasmin"] else []) + ([c["max"]] if c["hasmax"] else [])
+    return dict(xl=2 * max(c["x"] + lims + [1]) + c["b"] + 2, xs=(max(c["x"]) - min(c["x"])) ** 2 + 1,
+                yl=max(c["y"] + [1]) + 1, ys=(max(c["y"]) - min(c["y"])) ** 2 + 1 if c["y"] else 1)
+
+
+def fits_interval(c):
+    """the interval observations of the large-offset lattices must stay inside TLC's 32-bit integers:
+    (bound of the expectation + 2) * IVL_K * (bound of its denominator) < 2^31"""
+    n, W = len(c["x"]), max(sum(c["w"]), 1)
+    cp = caps(c)
+    dl, ds = max(n, W, 2 * c["b"], 2), max(n ** 3, W ** 4, 2)
+    return all((v + 2) * IVL_K * d < INT31 for v, d in ((cp["xl"], dl), (cp["yl"], dl), (cp["xs"], ds), (cp["ys"], ds)))
+
+
+def effective_conc(c, k):
+    """a large-offset lattice is used only where its interval observations fit; else the base lattice k mod NBASE"""
+    return k if k < NBASE or fits_interval(c) else k % NBASE
+
+
 def scales(c, k):
-    unit, off, wunit, _ = CONC[k]
-    yunit, yoff, _, _ = CONC[(k + 3) % len(CONC)]
+    unit, off, wunit, _, yunit, yoff, _ = CONC[k]
     lims = ([c["min"]] if c["hasmin"] else []) + ([c["max"]] if c["hasmax"] else [])
     s1x = max([abs(v + off) for v in c["x"] + lims] + [1])
     s1y = max([abs(v + yoff) for v in c["y"]] + [1])
     return dict(unit=Fr(unit), off=off, wunit=Fr(wunit), yunit=Fr(yunit), yoff=yoff, s1x=s1x, s1y=s1y,
-                se=3 * s1x + c["b"] + 1,
+                se=3 * s1x + c["b"] + 1, xbig=abs(off) >= BIG, ybig=abs(yoff) >= BIG,
                 n=len(c["x"]), W=max(sum(c["w"]), 1))
+
+
+def big_real(obs, S, D, cap, unit, off=0, square=False, sentinel=None):
+    """projection of one observed float on a LARGE-OFFSET lattice.
+
+    Tolerance ("to rounding", relative to the operand scale S = max |operand| in lattice units, offset included):
+      value-type outputs (mean, median, edges, centres):  |obs - exact| <= delta = 16 ulp * S   (the RELTOL used everywhere);
+      deviation-type outputs (std, err, weighted std, werr2): every algorithm has to form differences x_i - m of operands of
+      magnitude S, each determined only to ~ulp(S); the deviation is a root mean square of such differences, so it is granted
+      the same ABSOLUTE tolerance delta on the deviation itself; recorded through its square: [(s-delta)^2, (s+delta)^2].
+      numpy's two-pass std stays within ulp(S) of the exact value (for lattice data even second order), a raw-moment
+      formula E[x^2]-E[x]^2 carries an absolute error ~ ulp(S^2) = S*ulp(S) in the VARIANCE (>= 4 lattice units^2 at
+      S = 2^27), far outside.
+    Recording: if the tolerance interval is narrower than half the gap 1/D^2 between rationals of denominator <= D (D = the
+    denominator bound of the quantity), at most one candidate lies inside and the nearest one is recorded ("rat", as on the
+    base lattices); otherwise the interval itself, rounded outward to multiples of 1/IVL_K and clamped to the range `cap` any
+    expectation of this case can take ("ivl") - BinStats.tla then checks that the exact expectation lies inside."""
+    import math
+    from ..ratproj import RELTOL, OFF, NAN, SENT
+    try:
+        f = float(obs)
+    except (TypeError, ValueError):
+        return dict(OFF)
+    if math.isnan(f) or math.isinf(f):
+        return dict(NAN)
+    if sentinel is not None and f == sentinel:
+        return dict(SENT)
+    delta = RELTOL * S
+    q = Fr(f) / unit
+    if square:
+        if q < 0:
+            return dict(OFF)
+        a, lo, hi = q * q, max(q - delta, 0) ** 2, (q + delta) ** 2
+    else:
+        a = q - off
+        lo, hi = a - delta, a + delta
+    if 2 * (hi - lo) < Fr(1, D * D):
+        r = a.limit_denominator(D)
+        if lo <= r <= hi and abs(r.numerator) <= INT31:
+            return {"k": "rat", "n": r.numerator, "d": r.denominator}
+        return dict(OFF)
+    bound = cap + 1
+    if lo > bound or hi < -bound:
+        return dict(OFF)
+    return {"k": "ivl", "n": max(math.floor(lo * IVL_K), -bound * IVL_K), "d": min(math.ceil(hi * IVL_K), bound * IVL_K)}
 
 
 def project(res, c, k, p):
@@ -175,34 +256,44 @@ def project(res, c, k, p):
                 return [float(v) for v in np.atleast_1d(res[nm])]
         return []
 
+    cp = caps(c)
     eden = c["b"] if c["mode"] == "nbin" else 1
-    edge = dict(div=S["unit"], off=S["off"])
-    o["low"] = [real(v, S["se"], den_bound=2 * eden, **edge) for v in get(pre + "low", "low")]
-    o["high"] = [real(v, S["se"], den_bound=2 * eden, **edge) for v in get(pre + "high", "high")]
-    o["center"] = [real(v, S["se"], den_bound=2 * eden, **edge) for v in get(pre + "center", "center")]
 
-    def plain(keypre, outpre, unit, off, s1):
-        s2 = 8 * s1 * s1
-        o[outpre + "mean"] = [real(v, s1, div=unit, off=off, sentinel=SENTINEL, den_bound=max(n, 2)) for v in get(keypre + "mean")]
-        o[outpre + "med"] = [real(v, s1, div=unit, off=off, sentinel=SENTINEL, den_bound=2) for v in get(keypre + "median")]
-        o[outpre + "var"] = [real(v, s2, div=unit ** 2, square=True, sentinel=SENTINEL, den_bound=max(n * n, 2)) for v in get(keypre + "std")]
-        o[outpre + "err2"] = [real(v, s2, div=unit ** 2, square=True, sentinel=SENTINEL, den_bound=max(n ** 3, 2)) for v in get(keypre + "err")]
+    def lin(v, s1, unit, off, big, D, cap, sent=SENTINEL):
+        if big:
+            return big_real(v, s1, D, cap, unit, off=off, sentinel=sent)
+        return real(v, s1, div=unit, off=off, sentinel=sent, den_bound=D)
 
-    def wtd(keypre, outpre, unit, off, s1):
-        s2 = 8 * s1 * s1
-        o[outpre + "mean"] = [real(v, s1, div=unit, off=off, sentinel=SENTINEL, den_bound=max(W, 2)) for v in get(keypre + "mean")]
-        o[outpre + "var"] = [real(v, s2, div=unit ** 2, square=True, sentinel=SENTINEL, den_bound=max(W * W, 2)) for v in get(keypre + "std")]
+    def sq(v, s1, unit, big, D, cap):
+        if big:
+            return big_real(v, s1, D, cap, unit, square=True, sentinel=SENTINEL)
+        return real(v, 8 * s1 * s1, div=unit ** 2, square=True, sentinel=SENTINEL, den_bound=D)
+
+    for fld in ("low", "high", "center"):
+        o[fld] = [lin(v, S["se"], S["unit"], S["off"], S["xbig"], 2 * eden, cp["xl"], sent=None) for v in get(pre + fld, fld)]
+
+    def plain(keypre, outpre, unit, off, s1, big, cl, cs):
+        o[outpre + "mean"] = [lin(v, s1, unit, off, big, max(n, 2), cl) for v in get(keypre + "mean")]
+        o[outpre + "med"] = [lin(v, s1, unit, off, big, 2, cl) for v in get(keypre + "median")]
+        o[outpre + "var"] = [sq(v, s1, unit, big, max(n * n, 2), cs) for v in get(keypre + "std")]
+        o[outpre + "err2"] = [sq(v, s1, unit, big, max(n ** 3, 2), cs) for v in get(keypre + "err")]
+
+    def wtd(keypre, outpre, unit, off, s1, big, cl, cs):
+        o[outpre + "mean"] = [lin(v, s1, unit, off, big, max(W, 2), cl) for v in get(keypre + "mean")]
+        o[outpre + "var"] = [sq(v, s1, unit, big, max(W * W, 2), cs) for v in get(keypre + "std")]
         o[outpre + "erri"] = [real(v, 1, mul=S["wunit"], square=True, sentinel=SENTINEL, den_bound=max(W, 2)) for v in get(keypre + "err")]
-        o[outpre + "err2"] = [real(v, s2, div=unit ** 2, square=True, sentinel=SENTINEL, den_bound=max(W ** 4, 2)) for v in get(keypre + "err2")]
+        o[outpre + "err2"] = [sq(v, s1, unit, big, max(W ** 4, 2), cs) for v in get(keypre + "err2")]
 
-    plain(pre, "", S["unit"], S["off"], S["s1x"])
+    X = (S["unit"], S["off"], S["s1x"], S["xbig"], cp["xl"], cp["xs"])
+    Y = (S["yunit"], S["yoff"], S["s1y"], S["ybig"], cp["yl"], cp["ys"])
+    plain(pre, "", *X)
     if p["hasy"]:
-        plain("y", "y", S["yunit"], S["yoff"], S["s1y"])
+        plain("y", "y", *Y)
     if p["hasw"]:
         o["whist"] = [real(v, W, div=S["wunit"], sentinel=SENTINEL, den_bound=1) for v in get("whist")]
-        wtd("w" + pre, "w", S["unit"], S["off"], S["s1x"])
+        wtd("w" + pre, "w", *X)
         if p["hasy"]:
-            wtd("wy", "wy", S["yunit"], S["yoff"], S["s1y"])
+            wtd("wy", "wy", *Y)
     return o
 
 
@@ -235,7 +326,7 @@ def run_variant(c, k, p):
 
 
 def run_case(job):
-    i, c, k = job[0], job[1], job[2]
+    i, c, k = job[0], job[1], effective_conc(job[1], job[2])
     ps = job[3] if len(job) > 3 else variants(c, i)
     if c["w"]:
         need_den(sum(c["w"]) ** 4, "total weight")
@@ -380,7 +471,7 @@ def run(ctx):
     ctx.rule = ("every data array of length 1..%d over %d lattice values x every bin specification (binsize %s | nbin %s | nperbin %s x "
                 "mergelast on/off) x min in %s or absent x max in %s or absent, with second variable and weights derived from the data; "
                 "every (x, y, w) triple of length 1..%d over %s x %s x %s under 4 bin specifications - all exported from BinStatsMC.tla, "
-                "each concretised on one of %d dyadic lattices and run through histogram(more=True) [both engines], "
+                "each concretised on one of %d dyadic lattices (6 of them with offsets up to 2^40 on x and/or y) and run through histogram(more=True) [both engines], "
                 "histogram(weights=), Binner(x,y) [re-used object, dohist(calc_stats=False)+calc_stats()], Binner(x) without rev and "
                 "Binner(x,y,weights); plus %d seeded arrays up to length %d. A case is distinct by its abstract record and counted "
                 "once; evaluations count the calls made on it." %
@@ -391,6 +482,10 @@ def run(ctx):
              records=nrec, seeded_records=nseed, structure_census=census, strict_one_member_reading=STRICT)
     ctx.assumptions = [
         "dyadic lattice: data (x+off)*2^k, weights w*2^j, total weight <= 32; expected values are exact rationals with bounded denominators",
+        "large-offset lattices (|off| up to 2^40 lattice units on x and/or y, 6 of the %d concretisations): value-type outputs within "
+        "16 ulp of the operand scale (offset included); deviation-type outputs (std, err, wstd, werr2) within the same absolute "
+        "tolerance on the deviation itself; recorded as the nearest candidate rational where the tolerance interval isolates one, "
+        "else as an interval (outward-rounded to 1/256) that must contain the exact expectation" % len(CONC),
         "real-valued outputs are compared 'to rounding': 16 ulp of the operand scale, by snapping the observed float to the nearest "
         "rational with the denominator bound of the quantity (vh/ratproj.py)",
         "statistics of a bin are judged against the members its returned reverse-index slice lists (after the slice itself was judged)",
@@ -441,7 +536,11 @@ def selftest(ctx, recs, rejects):
 
     def corrupt_real(fld):
         def f(o):
-            o[fld][0] = dict(o[fld][0], n=o[fld][0]["n"] + 1)
+            r = o[fld][0]
+            if r["k"] == "ivl":           # shift the recorded interval by 3 lattice units
+                o[fld][0] = dict(r, n=r["n"] + 3 * IVL_K, d=r["d"] + 3 * IVL_K)
+            else:
+                o[fld][0] = dict(r, n=r["n"] + 1)
         return f
 
     def hist_shift(o):
@@ -459,6 +558,10 @@ def selftest(ctx, recs, rejects):
         ("werr2", lambda c, u: full(c, u), corrupt_real("werr2")),
         ("whist", lambda c, u: full(c, u), corrupt_real("whist")),
         ("low", lambda c, u: c["mode"] == "binsize" and u["o"]["low"], corrupt_real("low")),
+        ("std_interval", lambda c, u: u["o"]["hist"] and u["o"]["hist"][0] >= 2 and u["o"]["var"] and u["o"]["var"][0]["k"] == "ivl",
+         corrupt_real("var")),
+        ("ymean_interval", lambda c, u: u["p"]["hasy"] and u["o"]["hist"] and u["o"]["hist"][0] >= 1 and u["o"]["ymean"][0]["k"] == "ivl",
+         corrupt_real("ymean")),
         ("nperbin_high", lambda c, u: c["mode"] == "nperbin" and u["o"]["high"], corrupt_real("high")),
         ("nperbin_occupancy", lambda c, u: c["mode"] == "nperbin" and len(u["o"]["hist"]) >= 2, hist_shift),
         ("nperbin_sorted", lambda c, u: c["mode"] == "nperbin" and len(u["o"]["hist"]) >= 2 and len(set(c["x"])) == len(c["x"])
